@@ -148,6 +148,11 @@ func (ex *Exec) callCommon(fr *frame, c *ssa.CallCommon, site ssa.Instruction, g
 		}
 		return og, ov
 	}
+	if name == "sort.Slice" || name == "sort.SliceStable" {
+		if ex.modelSortSlice(fr, c, args, g, s) {
+			return g, Val{}
+		}
+	}
 	if r, ok := ex.modelExternal(name, callee, args, g, s); ok {
 		return g, r
 	}
@@ -893,10 +898,11 @@ func (ex *Exec) appendRow(srt, fits, sT, tT, ln, n, oldRowS, oldRowT string) str
 	u := ex.u
 	j := "j!a"
 	inWin := and(app("<=", plus(sOff(sT), ln), j), app("<", j, plus(plus(sOff(sT), ln), n)))
-	inPlace := ite(inWin, sel(oldRowT, plus(sOff(tT), minus(j, plus(sOff(sT), ln)))), sel(oldRowS, j))
+	// old cells are read through idx(off, k) (= off + k), the form quantified clauses over slices use as their trigger
+	inPlace := ite(inWin, sel(oldRowT, cellIdx(sOff(tT), minus(j, plus(sOff(sT), ln)))), sel(oldRowS, j))
 	junk := u.freshConst("app.junk", "(Array Int "+srt+")")
 	fresh := ite(and(app("<=", "0", j), app("<", j, plus(ln, n))),
-		ite(app("<", j, ln), sel(oldRowS, plus(sOff(sT), j)), sel(oldRowT, plus(sOff(tT), minus(j, ln)))),
+		ite(app("<", j, ln), sel(oldRowS, cellIdx(sOff(sT), j)), sel(oldRowT, cellIdx(sOff(tT), minus(j, ln)))),
 		sel(junk, j))
 	body := ite(fits, inPlace, fresh)
 	return u.defineArrayDual("app.row", "(Array Int "+srt+")",
@@ -1057,6 +1063,15 @@ func (ex *Exec) havocClosureEffects(args []Val, g string, s *State) {
 				ks = append(ks, k)
 			}
 			sort.Strings(ks)
+			var wfLater []Val
+			defer func() {
+				// against the allocation counter after the call: the closure may have stored an object it allocated
+				for _, hv := range wfLater {
+					if f := ex.wf(hv, s); f != "true" {
+						u.fact(implies(g, f))
+					}
+				}
+			}()
 			for _, k := range ks {
 				switch {
 				case k == "*":
@@ -1072,9 +1087,7 @@ func (ex *Exec) havocClosureEffects(args []Val, g string, s *State) {
 							if _, ok := u.keySorts[b.Loc.Key]; ok {
 								hv := u.havoc(s, b.Loc.Key)
 								if lt, ok := ex.localTyp[b.Loc.Key]; ok {
-									if f := ex.wf(Val{T: hv, Typ: lt}, s); f != "true" {
-										u.fact(implies(g, f))
-									}
+									wfLater = append(wfLater, Val{T: hv, Typ: lt})
 								}
 							}
 							delete(ex.ptrLocals(s), b.Loc.Key)
@@ -1097,4 +1110,52 @@ func (ex *Exec) havocClosureEffects(args []Val, g string, s *State) {
 			}
 		}
 	}
+}
+
+// modelSortSlice: assumed contract of sort.Slice / sort.SliceStable on a slice of non-struct elements: the cells of the
+// slice are permuted (every new cell holds an old cell, a different one for each index, and every old cell is still
+// there), nothing else changes, and the comparison closure runs. Which permutation (that the result is sorted) is not
+// stated.
+func (ex *Exec) modelSortSlice(fr *frame, c *ssa.CallCommon, args []Val, g string, s *State) bool {
+	u := ex.u
+	if len(c.Args) != 2 {
+		return false
+	}
+	mi, ok := c.Args[0].(*ssa.MakeInterface)
+	if !ok {
+		return false
+	}
+	st, ok := mi.X.Type().Underlying().(*types.Slice)
+	if !ok || isStruct(st.Elem()) {
+		return false
+	}
+	x := ex.value(fr, mi.X, s)
+	if x.T == "" {
+		return false
+	}
+	srt := sortOf(st.Elem())
+	key := "A$" + elemKey(st.Elem())
+	u.keySort(key, arr2(srt))
+	A := u.get(s, key)
+	xs := u.define("sort.s", SSlice, x.T)
+	oldRow := u.define("sort.old", arr1(srt), sel(A, sArr(xs)))
+	newRow := u.freshConst("sort.row", arr1(srt))
+	perm := u.freshConst("sort.perm", "(Array Int Int)")
+	inv := u.freshConst("sort.inv", "(Array Int Int)")
+	off, ln := sOff(xs), sLen(xs)
+	in := func(j string) string { return and(app("<=", "0", j), app("<", j, ln)) }
+	j, k := "j!s", "k!s"
+	u.fact(implies(g, fmt.Sprintf("(forall ((%s Int)) (! (=> %s (and (= (select %s %s) (select %s %s)) %s)) :pattern ((select %s %s))))",
+		j, in(j), newRow, cellIdx(off, j), oldRow, cellIdx(off, sel(perm, j)), in(sel(perm, j)), newRow, cellIdx(off, j))))
+	u.fact(implies(g, fmt.Sprintf("(forall ((%s Int) (%s Int)) (! (=> (and %s %s (not (= %s %s))) (not (= (select %s %s) (select %s %s)))) :pattern ((select %s %s) (select %s %s))))",
+		j, k, in(j), in(k), j, k, perm, j, perm, k, perm, j, perm, k)))
+	u.fact(implies(g, fmt.Sprintf("(forall ((%s Int)) (! (=> %s (and %s (= (select %s (select %s %s)) %s))) :pattern ((select %s %s))))",
+		k, in(k), in(sel(inv, k)), perm, inv, k, k, inv, k)))
+	// cells outside the window keep their value
+	u.fact(implies(g, fmt.Sprintf("(forall ((%s Int)) (! (=> (or (< %s %s) (>= %s (+ %s %s))) (= (select %s %s) (select %s %s))) :pattern ((select %s %s))))",
+		j, j, off, j, off, ln, newRow, j, oldRow, j, newRow, j)))
+	u.set(s, key, arr2(srt), ite(app("<=", ln, "1"), A, store(A, sArr(xs), newRow)))
+	u.assume("sort.Slice / sort.SliceStable permute the cells of the slice they are given and change nothing else (which permutation is not stated)")
+	ex.havocClosureEffects(args[1:], g, s)
+	return true
 }
